@@ -94,7 +94,8 @@ def decode_top(records):
 
 
 def job(j, seed):
-    order, n_runs, strings, unwind = j
+    order, n_runs, strings, unwind, *more = j
+    rows = more[0] if more else None  # a selection of pixel rows (the row count of the pixel block); None = the 9 default rows
     from symex import core as C
     from symex.core import R
     from . import sqwsym
@@ -106,8 +107,8 @@ def job(j, seed):
     sqwsym.SYM['unwind'] = max(unwind, 9) + 1
     title, name = strings
     obs, cands = [], []
-    tag = f'order={"+".join(order)},runs={n_runs},strings={strings!r}'
-    case = {'order': list(order), 'n_runs': n_runs, 'title': title, 'name': name}
+    tag = f'order={"+".join(order)},runs={n_runs},strings={strings!r}' + (f',rows={len(rows)}' if rows else '')
+    case = {'order': list(order), 'n_runs': n_runs, 'title': title, 'name': name, 'rows': list(rows) if rows else None}
     N = C.sym_var('N', sign='0+', is_int=True)
     chunk = C.sym_var('chunk', sign='+', is_int=True)
     shape = [C.sym_var(f's{k}', sign='+', is_int=True) for k in range(2)]
@@ -124,7 +125,10 @@ def job(j, seed):
         exps, inst, sample, dnd = make_inputs(sc, models, n_runs, title, name, shape)
         for c in order:
             if c == 'pix':
-                b = b.add_pixel_data(sqwsym.SymPixels(N, PIX_UNITS), experiments=exps)
+                if rows:
+                    b = b.add_pixel_data(sqwsym.SymPixels(N, PIX_UNITS), experiments=exps, rows=tuple(rows), row_units=tuple(PIX_UNITS[r_] for r_ in rows))
+                else:
+                    b = b.add_pixel_data(sqwsym.SymPixels(N, PIX_UNITS), experiments=exps)
             elif c == 'instrument':
                 b = b.add_default_instrument(inst)
             elif c == 'sample':
@@ -330,6 +334,11 @@ def run(chk):
     for i, o in enumerate(orders):
         jobs.append((o, 1 + i % 3, strs[i % len(strs)], K))
     jobs.append((orders[0], 2, strs[2], K))
+    # row selections other than the nine default rows (the row count is part of the pixel block header)
+    allrows = list(PIX_UNITS)
+    jobs.append((('dnd', 'pix'), 1, strs[0], K, allrows[:8]))
+    jobs.append((('pix', 'sample'), 1, strs[0], K, allrows[:1]))
+    jobs.append((('pix',), 2, strs[0], K, allrows + allrows[:1]))
     run_jobs(chk, job, jobs)
     run_jobs(chk, job_byteorder, [0])
     chk.bounds = {'pixels N': f'any N >= 0 with N <= {K}*chunk (chunk loop unrolled <= {K} iterations, unwinding checked)', 'chunk': 'any integer >= 1',
@@ -383,7 +392,10 @@ def replay_real(case):
         b = S.Sqw.build(f, title=title, byteorder=bo)
         for c in order:
             if c == 'pix':
-                b = b.add_pixel_data(pix, experiments=exps)
+                if case.get('rows'):
+                    b = b.add_pixel_data(pix, experiments=exps, rows=tuple(case['rows']), row_units=tuple(me.PIX_UNITS[r_] for r_ in case['rows']))
+                else:
+                    b = b.add_pixel_data(pix, experiments=exps)
             elif c == 'instrument':
                 b = b.add_default_instrument(inst)
             elif c == 'sample':
